@@ -132,12 +132,14 @@ fn harmonic(n: usize) -> f64 {
 impl Scenario for S5a {
     type Case = LossyCase;
     const NAME: &'static str = "S5a-lossycounter";
-    const RULE: &'static str = "width in 1..50 or epsilon from a grid, alphabet 2..200, seven stream shapes (two of them aimed at the pruning tick), thresholds {0, eps, 2 eps, 0.1, 0.25, 0.5, 1} plus two random ones; oracles evaluated at every prefix of short streams and at tick-adjacent plus sampled prefixes of long ones";
+    const RULE: &'static str = "width in 1..50 (a fifth of the runs 51..400) or epsilon from a grid, alphabet 2..200, seven stream shapes (two of them aimed at the pruning tick), thresholds {0, eps, 2 eps, 0.1, 0.25, 0.5, 1} plus two random ones; oracles evaluated at every prefix of short streams and at tick-adjacent plus sampled prefixes of long ones";
 
     fn generate(seed: u64, _run: u64, _prop: &'static str, tier: Tier) -> LossyCase {
         let mut g = Sm::new(seed);
         let (width, epsilon) = if g.chance(2, 3) {
-            let w = g.range(1, 50) as usize;
+            // mostly narrow windows (many pruning ticks per stream), sometimes wide ones whose
+            // reciprocal is not exactly representable
+            let w = if g.chance(4, 5) { g.range(1, 50) } else { g.range(51, 400) } as usize;
             (Some(w), 1.0 / w as f64)
         } else {
             let e = *g.pick(&[0.5, 0.3, 0.25, 0.2, 0.1, 0.07, 0.05, 0.03, 0.02, 0.01, 0.34, 0.9, 0.99, 0.001]);
